@@ -178,6 +178,79 @@ def check_iteration_streams(ctx, idx):
                          key="c12:iteration-cross-talk")
 
 
+def check_offpolicy_streams(ctx, idx):
+    """Off-policy algorithms through their real reset() (warm-up) and iteration(), N environments that all hit
+    their time limit on the SAME step, a stateful policy:
+      * after the warm-up and after an iteration every environment has been restarted at its own episode ends
+        (TimeLimit counter < limit, policy-state chain inside its own replay buffer unbroken);
+      * pushing one environment one step ahead leaves the other environments' replay buffers and step states
+        bit-identical."""
+    rng = ctx.rng
+    which = ["DQN", "SAC"][idx % 2]
+    sync = idx % 4 < 2          # all environments end episodes together (time limit only) / at different steps
+    env0 = random_tabular(rng, box=(which == "SAC"), p_term=0.0 if sync else 0.25, p_trunc=0.0)
+    if sync:
+        env0 = eqx.tree_at(lambda e: (e.term, e.trunc), env0, (jnp.zeros_like(env0.term), jnp.zeros_like(env0.trunc)))
+    n = int(rng.integers(2, 5)) if sync else int(rng.integers(4, 8))
+    env = TimeLimit(env0, n)
+    N, T, LS = 3, int(rng.integers(2 * n, 3 * n + 1)), (n + 1 if sync else 3 * n)
+    ctx.count("off-policy-streams:" + ("synchronous-episode-ends" if sync else "asynchronous-episode-ends"))
+    nS = int(env0.T.shape[0])
+    if which == "DQN":
+        algo = DQN(buffer_size=64 * N, learning_starts=LS, num_envs=N, num_steps=T, batch_size=2)
+        policy = TabularQPolicy(env0, rng.uniform(-1, 1, (nS, int(env0.T.shape[1]))), epsilon=0.4)
+    else:
+        algo = SAC(buffer_size=64 * N, learning_starts=LS, num_envs=N, num_steps=T, batch_size=2, q_width_size=4, q_depth=1)
+        policy = TabularSACPolicy(env0, rng.uniform(-1, 1, nS), rng.uniform(-1, 0, nS), scale_out=2.0)
+    cb = CallbackList(callbacks=[])
+    k0, k1 = jr.split(jr.key(int(rng.integers(0, 2**31))))
+    state = algo.reset(env, policy, key=k0, callback=cb)
+    it = eqx.filter_jit(lambda s, k: algo.iteration(s, key=k, callback=cb))
+    base = it(state, k1)
+    case0 = {"kind": "off-policy-streams", "algo": which, "N": N, "T": T, "time_limit": n, "learning_starts": LS}
+
+    def own_episodes(tag, st):
+        ss = st.step_state
+        counts = np.asarray(ss.env_state.step_count).reshape(N)
+        buf = ss.buffer
+        pos = np.asarray(buf.position).reshape(N)
+        for e in range(N):
+            m = int(min(pos[e], np.asarray(buf.dones).shape[1]))
+            dn = np.asarray(buf.dones)[e][:m]
+            sc = np.asarray(buf.states.count)[e][:m]
+            nsc = np.asarray(buf.next_states.count)[e][:m]
+            chain_ok = all((sc[t + 1] == 0) if dn[t] else (sc[t + 1] == nsc[t]) for t in range(m - 1))
+            ctx.case({**case0, "phase": tag, "env": e}, True)
+            ctx.count("off-policy-streams:" + tag)
+            if counts[e] >= n or not chain_ok or (sync and int(dn.sum()) != m // n):
+                ctx.phi_fail("each_environment_restarts_at_its_own_episode_ends",
+                             {**case0, "phase": tag, "env": e, "time_limit_counter": int(counts[e]), "dones": dn,
+                              "policy_state_counts": sc, "next_policy_state_counts": nsc},
+                             key="c12:offpolicy-own-episodes")
+                return False
+        return True
+
+    if not (own_episodes("after-reset", state) and own_episodes("after-iteration", base)):
+        return
+    for j in (0, N - 1):
+        one = jax.tree.map(lambda x: x[j], state.step_state.env_state)
+        moved = env.transition(one, sample_action(rng, env, k0), key=k0)
+        pert_env = jax.tree.map(lambda x, m_: x.at[j].set(m_), state.step_state.env_state, moved)
+        pert = eqx.tree_at(lambda s_: s_.step_state.env_state, state, pert_env)
+        out = it(pert, k1)
+        for i in range(N):
+            if i == j:
+                continue
+            pick = lambda st: jax.tree.map(lambda x: x[i] if (hasattr(x, "ndim") and x.ndim >= 1 and x.shape[0] == N) else x,
+                                           (st.step_state.buffer, st.step_state.env_state, st.step_state.policy_state))
+            ctx.case({**case0, "perturbed": j, "stream": i, "idx": idx}, True)
+            ctx.count("off-policy-streams:perturbation")
+            if not _bit_equal(pick(out), pick(base)):
+                ctx.phi_fail("other_streams_unaffected_by_perturbing_one", {**case0, "perturbed": j, "stream": i,
+                             "through": "iteration()"}, key="c12:offpolicy-cross-talk")
+                return
+
+
 def check_step_purity(ctx, env, name, idx):
     """env.step depends only on its explicit arguments and leaves them intact: stepping twice from
     the same state gives the same result and the state passed in is still usable afterwards."""
@@ -291,6 +364,9 @@ def run(ctx):
             ("Tabular", random_tabular(ctx.rng)), ("TabularBox", random_tabular(ctx.rng, box=True))]
     if ctx.quick:
         envs = [envs[i] for i in (0, 2, 5, 6, 8)]
+    for i in range(ctx.budget(4, 8)):
+        check_offpolicy_streams(ctx, i)
+        ctx.gc(2)
     for i in range(ctx.budget(4, 12)):
         check_iteration_streams(ctx, i)
         ctx.gc(2)
